@@ -18,8 +18,13 @@ MANIFEST = {
             "well-formed schema, encode deterministic, strict decoding of a flat schema (Transaction) accepts only the "
             "canonical bytes; Lisk32 bytes->text->bytes and text->bytes->text are lossless and createChecksum always verifies. "
             "Tie: translator re-derives each struct's three field sequences from the generated Go code "
-            "(enc = dec = strict, wf) and the correspondence runs every primitive and every generated struct on exhaustive short "
-            "byte strings, boundary varints, model-encoded values and mutations, comparing value, error class and reader position.",
+            "(enc = dec = strict, wf); the correspondence runs every Reader/Writer primitive on exhaustive short byte strings, "
+            "boundary varints and mutations (value, error class, reader position), and every generated struct on schema-generated "
+            "values, mutations, widened keys, hostile varints, boundary payload sizes, the empty message and directly built Go "
+            "values (status, error class, re-encoded bytes, decoded value field-wise) - the struct stream has NO exhaustive class "
+            "(per-struct exhaustive short strings are part of C09). IDs: transaction IDs are the hash of exactly the accepted "
+            "bytes; block/header IDs are stable under store/load and re-encoding but NOT unique per accepted byte string "
+            "(headers are decoded leniently and uint32 fields truncate: C08_uint32_truncation_refuted).",
     "note": "Trusted: Coq kernel + vm_compute, model fidelity as sampled, Go harness, Python glue, translator (cross-checked by the "
             "per-struct correspondence). NFC/UTF-8 are section parameters in the theorems (is_nfc (nfc_norm s), is_nfc s -> "
             "nfc_norm s = s); the evaluated model decides NFC only for code points < U+0300 plus a table and skips other strings.",
@@ -143,6 +148,8 @@ def check_ids(ck, recs):
         bad = None
         if r["st"] in (2, 3):
             bad = "panics/times out"
+        elif r["st"] == 1 and r["gen"] in ("gen", "nilagg") and r["kind"] in ("tx", "header", "block", "headerv", "header-sign-nil", "tx-reinit"):
+            bad = "a canonical, generated input is rejected"
         elif r["st"] == 0:
             h = lambda x: hashlib.sha256(bytes.fromhex(x)).hexdigest()
             if r["kind"] == "tx" and (r["re"] != r["d"] or r["id"] != h(r["d"])):
